@@ -4,6 +4,7 @@ import (
 	"context"
 	"encoding/json"
 	"fmt"
+	"math"
 	"reflect"
 	"strconv"
 )
@@ -65,15 +66,64 @@ func runHistory(c Case) interface{} {
 	}
 	order := asList(c["order"])
 	var outs, alone []interface{}
+	// the standalone answers are taken BEFORE the history (state that outlives a render is process-wide, too), and every
+	// repetition of a step inside the history must repeat its first answer
+	baseline := map[int]Result{}
+	for i := range steps {
+		s := asJ(steps[i])
+		baseline[i] = renderOne(files[fmt.Sprintf("t%d", i)], reviveGo(s["data"]), false, nil)
+	}
 	for _, o := range order {
 		i := int(o.(float64))
 		s := asJ(steps[i])
-		r := eng.Render(context.Background(), fmt.Sprintf("t%d", i), s["data"])
+		r := eng.Render(context.Background(), fmt.Sprintf("t%d", i), reviveGo(s["data"]))
 		outs = append(outs, J{"class": r.Class, "out": r.Out})
-		a := renderOne(files[fmt.Sprintf("t%d", i)], s["data"], false, nil)
+		a := baseline[i]
 		alone = append(alone, J{"class": a.Class, "out": a.Out})
 	}
 	return J{"class": "ok", "outs": outs, "alone": alone}
+}
+
+// reviveGo turns the markers {"__go":"leafy"} / {"__go":"nan"} / {"__go":"inf"} inside JSON data into Go values a JSON file cannot
+// carry: a struct with getter methods, and numbers encoding/json cannot marshal
+func reviveGo(x interface{}) interface{} {
+	switch v := x.(type) {
+	case map[string]interface{}:
+		switch v["__go"] {
+		case "leafy":
+			return &Leafy{Name: "kid", Count: 3, Ratio: 2.5, Ok: true, Tags: []string{"a", "b"}, URL: "/u", UserID: 7}
+		case "zerostruct":
+			return struct {
+				Orders []int
+				Name   string
+				Count  int
+			}{}
+		case "zeroptr":
+			return &Leafy{}
+		case "somestruct":
+			return struct {
+				Orders []int
+				Name   string
+				Count  int
+			}{Name: "n", Count: 2}
+		case "nan":
+			return math.NaN()
+		case "inf":
+			return math.Inf(1)
+		}
+		m := make(map[string]interface{}, len(v))
+		for k, e := range v {
+			m[k] = reviveGo(e)
+		}
+		return m
+	case []interface{}:
+		l := make([]interface{}, len(v))
+		for i, e := range v {
+			l[i] = reviveGo(e)
+		}
+		return l
+	}
+	return x
 }
 
 // documents that mutate everything reachable from the data
@@ -102,6 +152,10 @@ func mutatingDoc(r *Rng) []interface{} {
 			doc = append(doc, nRaw(sVar("rh", eCall(eId("range"), eNum("3")))), nRaw(sExpr(eCall(eDot(eId("rh"), "pop")))), nText("rh="),
 				nBuf(eCall(eDot(eId("rh"), "join"), eStr(",")), true), nText(";"))
 		},
+		// two top-level data keys that differ only in the case of their first letter: both define the variable `foo`
+		func() {
+			doc = append(doc, nText("foo="), nBuf(eId("foo"), true), nText("/Foo="), nBuf(eId("Foo"), true), nText("/bar="), nBuf(eId("bar"), true), nText(";"))
+		},
 		// iteration over an unordered data map whose keys mix numerals, padded numerals, signs and letters
 		func() {
 			doc = append(doc, nEach("kv", "kk", eId("km"), nBuf(eId("kk"), true), nText("="), nBuf(eId("kv"), true), nText(",")))
@@ -118,6 +172,7 @@ func mutatingDoc(r *Rng) []interface{} {
 func mutData(r *Rng) J {
 	return J{"xs": []interface{}{3, 1, 2, r.Range(0, 9)}, "o": J{"name": "n", "k": 1, "list": []interface{}{"b", "a"}, "zz": true, "aa": nil, "mm": 2.5},
 		"s": "str", "nested": []interface{}{[]interface{}{1, 2}, []interface{}{"x"}},
+		"Foo": "upper", "foo": "lower", "Bar": 1, "bar": 2,
 		"km": J{"2": "a", "10": "b", "1a": "c", "01": "d", "1": "e", "+7": "f", "7": "g", "b": "h", "B": "i", "-1": "j", "1e1": "k"}}
 }
 
@@ -161,6 +216,15 @@ func genC07(r *Rng, n int, tier string, emit func(Case)) {
 			var order []interface{}
 			for j := 0; j < rr.Range(3, 10); j++ {
 				order = append(order, rr.Intn(k))
+			}
+			if rr.Chance(1, 5) {
+				// the module's debug() function on a value encoding/json cannot marshal (NaN / Inf), between JSON output of a Go
+				// value with getter methods: the failing call must leave nothing behind
+				bad := J{"doc": []interface{}{nText("dbg:"), nBuf(eCall(eId("debug"), eId("bad"), eBool(false)), false), nText(";")}, "data": J{"bad": J{"v": J{"__go": []string{"nan", "inf"}[rr.Intn(2)]}}}}
+				getters := J{"doc": []interface{}{nBuf(eCall(eDot(eId("JSON"), "stringify"), eId("lf")), false), nText("|"), nBuf(eCall(eId("debug"), eId("lf")), false)}, "data": J{"lf": J{"__go": "leafy"}}}
+				steps = append(steps, getters, bad)
+				g, b := len(steps)-2, len(steps)-1
+				order = append(order, g, b, g, b, g)
 			}
 			emit(Case{"kind": "history", "steps": steps, "order": order, "bucket": "history"})
 		}
